@@ -1,0 +1,113 @@
+//! Verification-only hooks (compiled only with `--cfg boa_verif`).
+//!
+//! Read-only observers of VM bookkeeping, and a switch that lets a deterministic
+//! simulator force inline-cache misses or skip inline-cache fills. With nothing
+//! installed the shipped behaviour is unchanged.
+
+use crate::Context;
+use std::cell::{Cell, RefCell};
+
+/// Bookkeeping depths of the VM of a [`Context`], as seen between host entries.
+#[derive(Debug, Clone, Copy, PartialEq, Eq)]
+pub struct VmDepths {
+    /// Number of call frames (a dummy frame is always present).
+    pub frames: usize,
+    /// Length of the value stack.
+    pub stack: usize,
+    /// Number of nested host calls.
+    pub host_call_depth: usize,
+    /// Depth of the shadow (backtrace) stack.
+    pub shadow_stack: usize,
+    /// Whether an exception is pending.
+    pub pending_exception: bool,
+    /// Whether a native function is registered as the active function.
+    pub native_active_function: bool,
+    /// Number of environments of the current frame.
+    pub environments: usize,
+    /// Number of objects kept alive until the jobs are run.
+    pub kept_alive: usize,
+}
+
+/// Returns the bookkeeping depths of the VM.
+#[must_use]
+pub fn vm_depths(context: &Context) -> VmDepths {
+    let vm = &context.vm;
+    VmDepths {
+        frames: vm.frames.len(),
+        stack: vm.stack.verif_len(),
+        host_call_depth: vm.host_call_depth,
+        shadow_stack: vm.shadow_stack.verif_len(),
+        pending_exception: vm.pending_exception.is_some(),
+        native_active_function: vm.native_active_function.is_some(),
+        environments: vm.frame().environments.len(),
+        kept_alive: context.kept_alive.len(),
+    }
+}
+
+/// An inline-cache event the simulator may interfere with.
+#[derive(Debug, Clone, Copy, PartialEq, Eq)]
+pub enum IcEvent {
+    /// A lookup is about to happen; answering `true` forces a miss.
+    Lookup,
+    /// An entry is about to be stored; answering `true` skips the store.
+    Fill,
+}
+
+/// Inline-cache interference policy.
+pub type IcPolicy = Box<dyn FnMut(IcEvent) -> bool>;
+
+/// Inline-cache counters of this thread.
+#[derive(Debug, Clone, Copy, PartialEq, Eq, Default)]
+pub struct IcStats {
+    /// Lookups.
+    pub lookups: u64,
+    /// Lookups that hit on an own-property slot.
+    pub hits_own: u64,
+    /// Lookups that hit on a prototype slot.
+    pub hits_prototype: u64,
+    /// Lookups forced to miss by the policy.
+    pub forced_misses: u64,
+    /// Entries stored.
+    pub fills: u64,
+    /// Stores skipped by the policy.
+    pub skipped_fills: u64,
+    /// Stale weak entries dropped during a lookup.
+    pub stale_dropped: u64,
+    /// Sites that went megamorphic.
+    pub megamorphic: u64,
+}
+
+thread_local! {
+    static IC_POLICY: RefCell<Option<IcPolicy>> = const { RefCell::new(None) };
+    static IC_STATS: Cell<IcStats> = const { Cell::new(IcStats {
+        lookups: 0, hits_own: 0, hits_prototype: 0, forced_misses: 0,
+        fills: 0, skipped_fills: 0, stale_dropped: 0, megamorphic: 0,
+    }) };
+}
+
+/// Installs (or with `None` removes) the inline-cache policy of this thread.
+pub fn set_ic_policy(policy: Option<IcPolicy>) {
+    IC_POLICY.with(|p| *p.borrow_mut() = policy);
+}
+
+/// Returns and resets the inline-cache counters of this thread.
+pub fn take_ic_stats() -> IcStats {
+    IC_STATS.with(Cell::take)
+}
+
+pub(crate) fn ic_stat(f: impl FnOnce(&mut IcStats)) {
+    IC_STATS.with(|s| {
+        let mut v = s.get();
+        f(&mut v);
+        s.set(v);
+    });
+}
+
+pub(crate) fn ic_interfere(event: IcEvent) -> bool {
+    IC_POLICY.with(|p| {
+        let Ok(mut p) = p.try_borrow_mut() else {
+            return false;
+        };
+        p.as_mut().is_some_and(|f| f(event))
+    })
+}
